@@ -215,7 +215,31 @@ func buildSymMap(c *gram.CFG, d *verifhook.ParserDump) (*symMap, error) {
 // reference LALR(1) automaton with the documented resolution applied. It
 // returns "" or a description of the first difference. Cells decided by
 // equal-level associativity are compared only for "exactly one action".
+// dirMismatch is an equal-level cell whose direction differs from the
+// documented associativity.
+type dirMismatch struct {
+	State    int // lox state
+	Terminal int // cfg terminal
+	Right    bool
+	Want     int // 0 shift, 1 reduce
+	Got      int
+}
+
 func compareAutomata(tbl *lalr.Table, rr *refResolution, c *gram.CFG, d *verifhook.ParserDump, checkDirection bool) (string, int) {
+	diff, cells, _ := compareAutomata2(tbl, rr, c, d, checkDirection)
+	return diff, cells
+}
+
+// compareAutomata2 additionally returns the equal-level cells whose direction
+// differs (when checkDirection is false these are collected instead of being
+// reported as a difference).
+func compareAutomata2(tbl *lalr.Table, rr *refResolution, c *gram.CFG, d *verifhook.ParserDump, checkDirection bool) (string, int, []dirMismatch) {
+	var mism []dirMismatch
+	diff, cells := compareAutomataImpl(tbl, rr, c, d, checkDirection, &mism)
+	return diff, cells, mism
+}
+
+func compareAutomataImpl(tbl *lalr.Table, rr *refResolution, c *gram.CFG, d *verifhook.ParserDump, checkDirection bool, mism *[]dirMismatch) (string, int) {
 	m, err := buildSymMap(c, d)
 	if err != nil {
 		return err.Error(), 0
@@ -280,6 +304,9 @@ func compareAutomata(tbl *lalr.Table, rr *refResolution, c *gram.CFG, d *verifho
 			}
 			g := got[0]
 			if want.EqualLevel && !checkDirection {
+				if g.Kind != want.Kind {
+					*mism = append(*mism, dirMismatch{State: ls, Terminal: term, Right: want.Kind == 0, Want: want.Kind, Got: g.Kind})
+				}
 				// only follow the shift edge if both shift
 				if g.Kind == 0 && want.Kind == 0 {
 					if s := link(want.Target, g.Target, "shift"); s != "" {
